@@ -94,17 +94,28 @@ Proof.
   - left. reflexivity.
 Qed.
 
-(* from the wording of the property (mtime rounded DOWN to ms), outside the aliasing class KC3 *)
-Theorem same_result_except_K : forall (h : list event) (w0 : world) (a : N) (tr : option tconf) (R : Type) (p : prog R),
+(* the same with `tree_faithful` discharged: command strings are free of NUL bytes *)
+Theorem entries_valid_nul_free : forall (h : list event) (w0 : world),
+  stamp_determines (moments ([], w0) h) -> nul_free (confs h) ->
+  forall h1 h2, h = h1 ++ h2 ->
+  entries_valid H T (confs h) (moments ([], w0) h) (fst (exec ([], w0) h1)).
+Proof. intros h w0 Hs Hn. apply entries_valid_reachable; auto. apply tree_faithful_nul_free. exact Hn. Qed.
+
+Theorem same_result_nul_free : forall (h : list event) (w0 : world) (a : N) (tr : option tconf) (R : Type) (p : prog R),
+  stamp_determines (moments ([], w0) h) -> nul_free ((a, tr) :: confs h) -> nofail p ->
+  fst (run_cached H T a tr p (fst (exec ([], w0) h)) (snd (exec ([], w0) h))) = run_plain H T a tr p (snd (exec ([], w0) h)).
+Proof. intros h w0 a tr R p Hs Hn Hnf. apply same_result; auto. apply tree_faithful_nul_free. exact Hn. Qed.
+
+(* with the mtime rounded DOWN to ms (the usual reading of "millisecond resolution") *)
+Theorem same_result_rounded_down : forall (h : list event) (w0 : world) (a : N) (tr : option tconf) (R : Type) (p : prog R),
   mtime_determines (moments ([], w0) h) ->
   preepoch_whole_ms (moments ([], w0) h) ->
-  no_alias ((a, tr) :: confs h) ->
+  nul_free ((a, tr) :: confs h) ->
   nofail p ->
   fst (run_cached H T a tr p (fst (exec ([], w0) h)) (snd (exec ([], w0) h))) = run_plain H T a tr p (snd (exec ([], w0) h)).
 Proof.
-  intros h w0 a tr R p Hm Hp Hn Hnf. apply same_result; auto.
-  - apply stamp_of_mtime; auto.
-  - apply tree_faithful_of; auto.
+  intros h w0 a tr R p Hm Hp Hn Hnf. apply same_result_nul_free; auto.
+  apply stamp_of_mtime; auto.
 Qed.
 
 End History.
@@ -157,32 +168,5 @@ Proof.
   { apply existsb_exists. exists (id, i). split.
     - unfold all_inodes. apply in_flat_map. exists w. split; auto. apply inode_lookup_In. exact Ei.
     - cbn [snd]. rewrite B. apply Z.ltb_lt in L. rewrite L. reflexivity. }
-  congruence.
-Qed.
-
-Lemma tconf_eqb_eq x y : tconf_eqb x y = true -> x = y.
-Proof.
-  destruct x as [c1 i1 k1], y as [c2 i2 k2]. unfold tconf_eqb. cbn [t_cmd t_inplace t_copy].
-  intros E. apply andb_true_iff in E. destruct E as [E E3]. apply andb_true_iff in E. destruct E as [E1 E2].
-  apply list_eqb_eq in E1. apply Bool.eqb_prop in E2, E3. subst. reflexivity.
-Qed.
-
-Lemma otconf_eqb_eq x y : otconf_eqb x y = true -> x = y.
-Proof.
-  destruct x as [a|], y as [b|]; cbn [otconf_eqb]; intros E; try discriminate; auto.
-  f_equal. apply tconf_eqb_eq. exact E.
-Qed.
-
-Lemma alias_b_sound cs : alias_b cs = false -> no_alias cs.
-Proof.
-  unfold alias_b. intros Hb a1 t1 a2 t2 I1 I2 E.
-  destruct (otconf_eqb t1 t2) eqn:B; [apply otconf_eqb_eq; exact B|].
-  exfalso.
-  assert (X : existsb (fun x => existsb (fun y => tree_eqb (tree_of (fst x) (snd x)) (tree_of (fst y) (snd y))
-                                      && negb (otconf_eqb (snd x) (snd y))) cs) cs = true).
-  { apply existsb_exists. exists (a1, t1). split; auto.
-    apply existsb_exists. exists (a2, t2). split; auto.
-    cbn [fst snd]. rewrite B. rewrite E. replace (tree_eqb (tree_of a2 t2) (tree_of a2 t2)) with true; [reflexivity|].
-    symmetry. apply tree_eqb_eq. reflexivity. }
   congruence.
 Qed.
